@@ -15,12 +15,12 @@ package comdoc
 //@   allocbound 0 4 * count
 //@   allocbound 1 4 * count + 4 * r.SectorSize
 //@   requires (r.SectorSize == 512 || r.SectorSize == 4096) && count <= 1073741824
-//@   requires len(r.SAT) <= 1073741824 && len(r.SSAT) <= 1073741824
+//@   modifies r.SAT, r.SSAT, mem(r.SAT), mem(r.SSAT)
 //@   loop 0 sig "for i, j := range sat" invariant -1 <= rangeindex && rangeindex < len(sat) && count >= 1 && len(freeList) + count == old(count) && \
 //@        (short ==> sameslice(sat, old(r.SSAT))) && (!short ==> sameslice(sat, old(r.SAT))) && allocated(freeList) && cap(freeList) == old(count)
 //@   loop 0 invariant @table_not_touched_yet (short ==> forall(j, 0, len(sat), sat[j] == old(r.SSAT[j]))) && (!short ==> forall(j, 0, len(sat), sat[j] == old(r.SAT[j])))
-//@   loop 0 invariant @free_list_so_far forall(k, 0, len(freeList), 0 <= freeList[k] && freeList[k] <= rangeindex && sat[freeList[k]] == -1)
-//@   loop 0 invariant @free_list_ascending forall(a, 0, len(freeList), forall(b, a + 1, len(freeList), freeList[a] < freeList[b]))
+//@   loop 0 invariant @free_list_so_far len(sat) <= 1073741824 ==> forall(k, 0, len(freeList), 0 <= freeList[k] && freeList[k] <= rangeindex && sat[freeList[k]] == -1)
+//@   loop 0 invariant @free_list_ascending len(sat) <= 1073741824 ==> forall(a, 0, len(freeList), forall(b, a + 1, len(freeList), freeList[a] < freeList[b]))
 //@   loop 1 sig "for i := oldCount; i < len(newSAT); i++" invariant oldCount <= i && i <= len(newSAT) && count >= 0 && len(freeList) + count == old(count) && \
 //@        oldCount == len(sat) && count <= len(newSAT) - i && len(newSAT) <= oldCount + old(count) + 1024 && \
 //@        (r.SectorSize == 512 ==> len(newSAT) == oldCount + needBlocks * 128) && (r.SectorSize == 4096 ==> len(newSAT) == oldCount + needBlocks * 1024) && allocated(freeList) && cap(freeList) == old(count) && \
@@ -28,13 +28,13 @@ package comdoc
 //@        sectorsPerBlock == r.SectorSize / 4 && needBlocks >= 1
 //@   loop 1 invariant @new_cells_are_free forall(j, oldCount, i, newSAT[j] == -1)
 //@   loop 1 invariant @old_cells_unchanged (short ==> forall(j, 0, oldCount, newSAT[j] == old(r.SSAT[j]))) && (!short ==> forall(j, 0, oldCount, newSAT[j] == old(r.SAT[j])))
-//@   loop 1 invariant @free_list_so_far forall(k, 0, len(freeList), 0 <= freeList[k] && freeList[k] < i && newSAT[freeList[k]] == -1)
-//@   loop 1 invariant @free_list_ascending forall(a, 0, len(freeList), forall(b, a + 1, len(freeList), freeList[a] < freeList[b]))
+//@   loop 1 invariant @free_list_so_far len(sat) <= 1073741824 ==> forall(k, 0, len(freeList), 0 <= freeList[k] && freeList[k] < i && newSAT[freeList[k]] == -1)
+//@   loop 1 invariant @free_list_ascending len(sat) <= 1073741824 ==> forall(a, 0, len(freeList), forall(b, a + 1, len(freeList), freeList[a] < freeList[b]))
 //@   ensures @nothing_requested count <= 0 ==> len(ret0) == 0 && sameslice(r.SAT, old(r.SAT)) && sameslice(r.SSAT, old(r.SSAT))
 //@   ensures @as_many_as_requested count > 0 ==> len(ret0) == count
-//@   ensures @only_free_short_cells_in_bounds count > 0 && short ==> forall(k, 0, len(ret0), 0 <= ret0[k] && ret0[k] < len(r.SSAT) && r.SSAT[ret0[k]] == -1)
-//@   ensures @only_free_cells_in_bounds count > 0 && !short ==> forall(k, 0, len(ret0), 0 <= ret0[k] && ret0[k] < len(r.SAT) && r.SAT[ret0[k]] == -1)
-//@   ensures @distinct_ascending forall(a, 0, len(ret0), forall(b, a + 1, len(ret0), ret0[a] < ret0[b]))
+//@   ensures @only_free_short_cells_in_bounds count > 0 && short && old(len(r.SSAT)) <= 1073741824 ==> forall(k, 0, len(ret0), 0 <= ret0[k] && ret0[k] < len(r.SSAT) && r.SSAT[ret0[k]] == -1)
+//@   ensures @only_free_cells_in_bounds count > 0 && !short && old(len(r.SAT)) <= 1073741824 ==> forall(k, 0, len(ret0), 0 <= ret0[k] && ret0[k] < len(r.SAT) && r.SAT[ret0[k]] == -1)
+//@   ensures @distinct_ascending old(len(ite(short, r.SSAT, r.SAT))) <= 1073741824 ==> forall(a, 0, len(ret0), forall(b, a + 1, len(ret0), ret0[a] < ret0[b]))
 //@   ensures @table_only_grows_by_whole_blocks (short ==> len(r.SSAT) >= old(len(r.SSAT)) && (len(r.SSAT) - old(len(r.SSAT))) % (r.SectorSize / 4) == 0) && \
 //@        (!short ==> len(r.SAT) >= old(len(r.SAT)) && (len(r.SAT) - old(len(r.SAT))) % (r.SectorSize / 4) == 0)
 //@   ensures @existing_short_cells_keep_their_value short ==> forall(j, 0, old(len(r.SSAT)), r.SSAT[j] == old(r.SSAT[j]))
@@ -79,3 +79,9 @@ package comdoc
 //@   on call (*ComDoc).DeleteFile(_, n) ret (e): deleted = (e == nil && n == name)
 //@   before call (*ComDoc).addStream(_, c, sh): assert @same_cutoff_as_the_reader_and_old_stream_removed_first deleted && sameslice(c, contents) && sh == (len(contents) < r.Header.MinStdStreamSize)
 //@   before call (*ComDoc).newDirEnt(_, n, sz, first): assert @directory_entry_describes_the_stored_stream n == name && sz == len(contents)
+//@
+//@ func (*ComDoc).allocSectorTables
+//@   property C18
+//@   requires r.SectorSize == 512 || r.SectorSize == 4096
+//@   ensures @every_allocation_table_sector_is_listed (r.SectorSize == 512 ==> len(r.SAT) / 128 <= len(r.MSAT)) && (r.SectorSize == 4096 ==> len(r.SAT) / 1024 <= len(r.MSAT))
+//@   ensures @listed_sectors_fit_the_header_and_the_msat_sectors (r.SectorSize == 512 ==> len(r.MSAT) <= 109 + len(r.msatList) * 127) && (r.SectorSize == 4096 ==> len(r.MSAT) <= 109 + len(r.msatList) * 1023)
